@@ -8,7 +8,9 @@ deadlock.
 
 Harnesses (each forces a collision):
   H1a/b/c  2 threads connect() with equal / overlapping / disjoint (database, schema), auto-create on
+  H1e      2 threads connect() to the same database/schema spelled in different letter case
   H1d      3 threads connect() with equal arguments                                   (thorough)
+  H7       COMMENT ON TABLE and ALTER TABLE SET COMMENT on the same table against a reader of the comment
   H2       two writers insert tagged rows into one table, one reader counts
   H3a      CREATE TABLE .. COMMENT + VARCHAR length (multi-step) against a metadata reader
   H3b      MERGE (multi-step) against a reader of the target
@@ -30,12 +32,17 @@ LEVEL = "model_checking"
 
 
 # ---- harness definitions -------------------------------------------------------------------------------------------------
+_FREE_RUNNING = {"on": False}
+
+
 def _mk(setup=(), conns=()):
     def make_env():
         import fakesnow.instance as inst
 
+        sched.install_threading_shim(on=not _FREE_RUNNING["on"])
         fs = inst.FakeSnow()
-        sched.coop_locks(fs)
+        if not _FREE_RUNNING["on"]:
+            sched.coop_locks(fs)
         env = {"fs": fs, "conns": {}}
         if setup:
             c = fs.connect(database="db1", schema="s1")
@@ -134,6 +141,7 @@ HARNESSES = {
     "H1a": (_mk(), [[s_connect("db1", "s1", "c"), s_ctx("c")], [s_connect("db1", "s1", "c"), s_ctx("c")]]),
     "H1b": (_mk(), [[s_connect("db1", "s1", "c"), s_ctx("c")], [s_connect("db1", "s2", "c"), s_ctx("c")]]),
     "H1c": (_mk(), [[s_connect("db1", "s1", "c"), s_ctx("c")], [s_connect("db2", "s2", "c"), s_ctx("c")]]),
+    "H1e": (_mk(), [[s_connect("db1", "s1", "c"), s_ctx("c")], [s_connect("DB1", "S1", "c"), s_ctx("c")]]),
     "H1d": (_mk(), [[s_connect("db1", "s1", "c")], [s_connect("db1", "s1", "c")], [s_connect("db1", "s1", "c")]]),
     "H2": (
         _mk(setup=["create table t (x int)"], conns=("w1", "w2", "r")),
@@ -158,12 +166,20 @@ HARNESSES = {
             [s_query_desc("b", "select 'b' as from_b, 5 as n"), s_read("b"), s_exec("b", "create table tb (y varchar(3)) comment = 'cb'", fetch=True)],
         ],
     ),
+    "H7": (
+        _mk(setup=["create table t7 (a varchar(4)) comment = 'old'"], conns=("a", "b", "r")),
+        [
+            [s_exec("a", "comment on table t7 is 'from A'")],
+            [s_exec("b", "alter table t7 set comment = 'from B'")],
+            [s_meta_table("r", "T7")],
+        ],
+    ),
     "H4": (
         _mk(setup=["create table t (x int)"], conns=("w",)),
         [[s_connect("db9", "s9", "c"), s_ctx("c")], [s_exec("w", "insert into t values (7)"), s_exec("w", "select x from t order by x")]],
     ),
 }
-QUICK = ["H1a", "H1b", "H1c", "H2", "H3a", "H3b", "H4", "H6"]
+QUICK = ["H1a", "H1b", "H1c", "H1e", "H2", "H3a", "H3b", "H4", "H6", "H7"]
 BOUNDS = {"quick": {h: 1 for h in HARNESSES}, "thorough": {h: 2 for h in HARNESSES}}
 BOUNDS["thorough"].update({"H1a": 3, "H2": 3})
 
@@ -208,6 +224,7 @@ INVARIANTS = {
     "H1a": _inv_h1([("db1", "s1"), ("db1", "s1")]),
     "H1b": _inv_h1([("db1", "s1"), ("db1", "s2")]),
     "H1c": _inv_h1([("db1", "s1"), ("db2", "s2")]),
+    "H1e": _inv_h1([("db1", "s1"), ("DB1", "S1")]),
     "H4": _inv_h1([("db9", "s9")]),
     "H6": _inv_h6,
     "H2": _inv_h2,
@@ -306,6 +323,11 @@ def explain(hname, results, serial_keys):
             bits.append("table_visible_before_lengths")
         if bits:
             return "reader:half_done_create:" + "+".join(sorted(set(bits)))
+    if hname == "H7":
+        got = results[2][1][-1][1]
+        comment = got[0][1] if got else "<table not listed>"
+        if comment not in ("old", "from A", "from B"):
+            return f"reader:comment_neither_old_nor_new:{'null' if comment is None else 'other'}"
     if hname == "H3b":
         rows = results[1][1][-1][0]
         before = [(1, "old1"), (2, "old2")]
@@ -359,6 +381,7 @@ def free_running(hname, rounds):
     make_env, scripts = HARNESSES[hname]
     serial = serial_outcomes(hname)
     seen = {}
+    _FREE_RUNNING["on"] = True  # real locks, no scheduler
     for _ in range(rounds):
         env = make_env()
         res = {}
@@ -380,6 +403,7 @@ def free_running(hname, rounds):
         key = repr((results, dh))
         k = "serial" if key in serial else explain(hname, results, serial)
         seen[k] = seen.get(k, 0) + 1
+    _FREE_RUNNING["on"] = False
     return seen
 
 
